@@ -1,8 +1,8 @@
-(* C03 — every produced image is a well-formed MS-CFB file by an independent checker.  Statements are printed by Check below and compared with C03.expected.  PARTIAL: the checker wf_check (spec/WfImage.v, written from MS-CFB and the property text, sharing no mechanics with the model or the library) is run on the IMPLEMENTATION's bytes after every operation of every generated history — that is the property's oracle applied directly to the code.  Theorems cover the base case (the created image of both versions is accepted), evaluated instances of the inductive step, non-triviality of the checker, and the parts of the invariant W that are proved: FAT cache = FAT on disk through reuse and growth, FAT/DIFAT markers maintained (FatInv/DifatOk), free list disjoint from FAT sectors and naming only FREE cells, removal blanks exactly the removed slot and keeps the sibling tree a search tree without red-red edges.  The full preservation theorem W (WF s -> wf_b (image (step s op))) is not proved. *)
+(* C03 — every produced image is a well-formed MS-CFB file by an independent checker.  Statements are printed by Check below and compared with C03.expected.  PARTIAL: the checker wf_check (spec/WfImage.v, written from MS-CFB and the property text, sharing no mechanics with the model or the library) is run on the IMPLEMENTATION's bytes after every operation of every generated history — that is the property's oracle applied directly to the code.  Theorems cover the base case (the created image of both versions is accepted), evaluated instances of the inductive step, non-triviality of the checker, and the parts of the invariant W that are proved: FAT cache = FAT on disk through reuse and growth, FAT/DIFAT markers maintained (FatInv/DifatOk), free list disjoint from FAT sectors and naming only FREE cells, removal blanks exactly the removed slot and keeps the sibling tree a search tree without red-red edges.  Also proved (proofs/WfPersist.v): THE PROPERTY FOR NAMESPACE HISTORIES - the checker accepts (all 44 rules) the image of every state satisfying the history invariant of C02 (PInv) with empty streams, no orphan FAT cells, an empty mini stream and blank slots outside the tree; those conditions hold of the fresh file and are kept by create_storage, create_new_stream, remove_storage, remove_stream and the metadata setters; hence for EVERY history of those calls and the queries from a fresh file of either version (up to 6000 calls) the image is well-formed, at every prefix.  NOT proved: histories that write stream data (W for the store layer). *)
 From Cfb.model Require Import Base Names DirEnt State Alloc Dir Mini Store Handle Open Cfb.
 From Cfb.gen Require Import Consts.
 From Cfb.spec Require Import WfImage.
-From Cfb.proofs Require Import WfProofs CoherenceProofs ReuseProofs DirProofs WalkSafe.
+From Cfb.proofs Require Import WfProofs CoherenceProofs ReuseProofs DirProofs WalkSafe ReadonlyTotal PersistProofs WfPersist.
 Set Printing Width 110.
 
 (* base case, version 3 *)
@@ -76,3 +76,39 @@ Theorem C03_removal_creates_no_red_red : ltac:(let t := type of remove_no_red_re
 Proof. exact remove_no_red_red. Qed.
 Check C03_removal_creates_no_red_red.
 Print Assumptions C03_removal_creates_no_red_red.
+
+(* every state satisfying the history invariant (with empty streams, owned FAT cells, empty mini stream, blank free slots) has an image the independent checker accepts *)
+Theorem C03_invariant_states_are_well_formed : ltac:(let t := type of pinv_image_wf in exact t).
+Proof. exact pinv_image_wf. Qed.
+Check C03_invariant_states_are_well_formed.
+Print Assumptions C03_invariant_states_are_well_formed.
+
+(* the extra conditions are preserved by every covered operation (Ok, or refused without effect) *)
+Theorem C03_invariant_is_kept_by_every_covered_call : ltac:(let t := type of step_xinv in exact t).
+Proof. exact step_xinv. Qed.
+Check C03_invariant_is_kept_by_every_covered_call.
+Print Assumptions C03_invariant_is_kept_by_every_covered_call.
+
+(* for EVERY history of the covered calls from a fresh file: wf_check = 0 *)
+Theorem C03_images_of_namespace_histories_are_well_formed : ltac:(let t := type of wf_history in exact t).
+Proof. exact wf_history. Qed.
+Check C03_images_of_namespace_histories_are_well_formed.
+Print Assumptions C03_images_of_namespace_histories_are_well_formed.
+
+(* the same at every operation boundary *)
+Theorem C03_well_formed_at_every_prefix : ltac:(let t := type of wf_every_prefix in exact t).
+Proof. exact wf_every_prefix. Qed.
+Check C03_well_formed_at_every_prefix.
+Print Assumptions C03_well_formed_at_every_prefix.
+
+(* non-vacuity: the 17-call example history of C02, V3 and V4 *)
+Theorem C03_history_example_is_well_formed : ltac:(let t := type of WfExample.hist_wf in exact t).
+Proof. exact WfExample.hist_wf. Qed.
+Check C03_history_example_is_well_formed.
+Print Assumptions C03_history_example_is_well_formed.
+
+(* and the checker rejects that image with one byte changed *)
+Theorem C03_checker_rejects_a_corrupted_example_image : ltac:(let t := type of WfExample.hist_image_broken_rejected in exact t).
+Proof. exact WfExample.hist_image_broken_rejected. Qed.
+Check C03_checker_rejects_a_corrupted_example_image.
+Print Assumptions C03_checker_rejects_a_corrupted_example_image.
